@@ -1,3 +1,4 @@
 import Cgm.Lemmas.AuditCmd
 import Cgm.E2E.C17
+import Cgm.E2E.C17b
 #audit_namespace Cg.E2E.C17
